@@ -46,6 +46,7 @@ func runC13(c *fw.Ctx, idx int) fw.Result {
 	var ac annoCase
 	var posOf func(m string) (int, int, bool)
 	n := 0
+	refNamed := 0 // SAM form: queries that carry the reference's name
 	switch cmd {
 	case "snps":
 		W := r.Range(1, 150)
@@ -138,6 +139,18 @@ func runC13(c *fw.Ctx, idx int) fw.Result {
 		if form == "sam" {
 			// make SAM queries share mutations: derive them from a common mutated genome
 			ac = recurSam(r, ac)
+			if len(ac.sf.Queries) >= 2 && r.Chance(0.15) {
+				// the reference genome itself among the aligned sequences, under its own name
+				k := r.Intn(len(ac.sf.Queries))
+				old := ac.sf.Queries[k].Name
+				if !strings.Contains(ac.sf.Text, "\n"+ac.an.RefName+"\t") {
+					ac.sf.Text = strings.ReplaceAll(ac.sf.Text, "\n"+old+"\t", "\n"+ac.an.RefName+"\t")
+					ac.sf.Queries[k].Name = ac.an.RefName
+					ac.names[k] = ac.an.RefName
+					refNamed = 1
+					res.Count("sam_cases_with_a_read_named_like_the_reference", 1)
+				}
+			}
 		}
 		var err error
 		perSeq, err = ac.runVariants(-1, -1, false, 0, appendSNP, pickThreads(r))
@@ -190,6 +203,11 @@ func runC13(c *fw.Ctx, idx int) fw.Result {
 	}
 	// count per-sequence output
 	lines := strings.Split(strings.TrimSuffix(perSeq, "\n"), "\n")
+	if refNamed > 0 && len(lines) == n+1-refNamed {
+		// alignments named like the reference are taken for the reference record and left out of
+		// the per-sequence output: the aggregate has to count over the same sequences
+		n -= refNamed
+	}
 	if len(lines) != n+1 {
 		res.Fail(cmd+":rows", fmt.Sprintf("per-sequence output has %d rows for %d sequences", len(lines)-1, n), files, argv)
 		return res
